@@ -274,8 +274,35 @@ func initAllow(path string) bool {
 	return false
 }
 
+// activeGroups drops groups none of whose harnesses run in this tier / selection, so that their
+// packages are not loaded at all.
+func (r *Run) activeGroups() {
+	var gs []Group
+	for _, g := range r.Spec.Groups {
+		var hs []HarnessSpec
+		for _, h := range g.Harnesses {
+			if r.Only != "" && h.Fn != r.Only {
+				continue
+			}
+			if h.ThoroughOnly && r.Tier != "thorough" {
+				continue
+			}
+			if len(h.Tiers) > 0 && !contains(h.Tiers, r.Tier) {
+				continue
+			}
+			hs = append(hs, h)
+		}
+		if len(hs) > 0 {
+			g.Harnesses = hs
+			gs = append(gs, g)
+		}
+	}
+	r.Spec.Groups = gs
+}
+
 func (r *Run) Main() int {
 	r.loadKnown()
+	r.activeGroups()
 	if err := r.buildOverlay(); err != nil {
 		fmt.Fprintln(os.Stderr, "gosym: overlay:", err)
 		return 2
